@@ -182,6 +182,9 @@ class Ctx:
         self.workdir = os.path.join(ROOT, "work", pid)
         os.makedirs(self.workdir, exist_ok=True)
         self.corrdir = os.path.join(COQ, "Corr", pid)
+        if not replay:
+            import shutil
+            shutil.rmtree(self.corrdir, ignore_errors=True)      # case files of earlier runs (they can be large)
         os.makedirs(self.corrdir, exist_ok=True)
         self.known = [k for k in load_known() if k["property"] == pid]
         self.props_built = []
@@ -371,6 +374,14 @@ class Ctx:
               "violations": len(violations)}
         os.makedirs(os.path.join(ROOT, "evidence"), exist_ok=True)
         json.dump(ev, open(os.path.join(ROOT, "evidence", "%s.json" % self.pid), "w"), indent=1, default=str)
+        # case files are transient: keep the sources only when something disagreed, never the compiled files
+        try:
+            for root, _, fs in os.walk(self.corrdir):
+                for f in fs:
+                    if not violations or not f.endswith(".v"):
+                        os.remove(os.path.join(root, f))
+        except OSError:
+            pass
         for path, suffix in violations:
             print("VIOLATION property=%s replay=%s%s" % (self.pid, path, suffix), flush=True)
         self.log("done: %d/%d obligations, %d cases (%d non-trivial), %d violation(s), %.1fs" % (n_ok, n_ob, evaluations, nontrivial, len(violations), wall))
